@@ -20,7 +20,7 @@ import errno
 import itertools
 
 from vf.core import exc_key
-from vf.iodoubles import FULL, ERR, FakeSocket, FakeUdpHandler
+from vf.iodoubles import FULL, ERR, ERR1, FakeSocket, FakeUdpHandler
 
 LEVEL = "fault_enumeration"
 RULE = ("every queue of 1..N uniquely tagged packets over <= 3 destinations (up to renaming of destinations) x every "
@@ -99,7 +99,7 @@ class Harness(object):
             self.attempts.append((self.npass, data, da, True))
             return FULL
         self.attempts.append((self.npass, data, da, False))
-        return ERR(self.code)
+        return ERR1(self.code) if getattr(self, "bare", False) else ERR(self.code)
 
     def close(self):
         self.stack.close()
@@ -115,6 +115,10 @@ def run_case(ctx, kind, mode, queue, pattern, later=None, code=errno.ECONNREFUSE
     from ioflo.aio.proto import packeting
     H = Harness(kind, own=own)
     H.code = code
+    import zlib
+    if zlib.crc32(repr((kind, mode, queue, pattern, later)).encode()) % 4 == 0:
+        H.bare = True           # the error comes as socket.error(number): the number is args[0], .errno is not set
+        ctx.hit("cases_with_errors_built_from_the_number_alone")
     if own:
         ctx.hit("cases_with_the_callers_own_queue")
     st = H.stack
